@@ -3,8 +3,8 @@ import IofloModel.Drv.Proto
 /-!
 driver for the framer clock model (engine `floclock`, C11)
 
-  `runf <P> <nticks> <nframes> frame*`   τ = Float, every number is the 16 hex digit bit pattern
-  `runi <P> <nticks> <nframes> frame*`   τ = Int   (exact time in units of a quantum), decimal integers
+  `runf <P> <start> <nticks> <nframes> frame*`   τ = Float  (the instance is entered at tick <start>), every number is the 16 hex digit bit pattern
+  `runi <P> <start> <nticks> <nframes> frame*`   τ = Int   (exact time in units of a quantum), decimal integers
     frame := `<over idx|-> <nverbs> verb*`      (`frame Fi in Fover`)
     verb  := `T <num>` (timeout) | `R <num>` (repeat) | `G <far> <nneeds> need*`   far := `next`|`me`|`<idx>`
     need  := `E <cmp> <num>` (elapsed) | `C <cmp> <nat>` (recurred)    cmp := ge gt le lt eq ne
@@ -95,6 +95,7 @@ def showObs {τ : Type} (sh : τ → String) (o : Obs τ) : String :=
 def runLine {τ : Type} [Add τ] [Sub τ] [LE τ] [LT τ] [DecidableLE τ] [DecidableLT τ] [OfNat τ 0] [Lit τ]
     (num : P τ) (sh : τ → String) (ts : List String) : Option String := do
   let (per, r) ← num ts
+  let (start, r) ← nat r
   let (nticks, r) ← nat r
   let (p, r) ← many (frameP num) r
   if r ≠ [] then none
@@ -105,7 +106,7 @@ def runLine {τ : Type} [Add τ] [Sub τ] [LE τ] [LT τ] [DecidableLE τ] [Deci
     -- over links must point at frames and form a forest (the real builder hangs on a cycle)
     if !(prog.all (fun f => match f.over with | some o => o < prog.length | none => true)) then none
     if !(acyclic prog) then none
-    return " ".intercalate ((run (transOf prog) (stamps per nticks)).map (showObs sh))
+    return " ".intercalate ((run (transOf prog) (stampsFrom per start nticks)).map (showObs sh))
 
 def step (_ : Unit) (line : String) : Unit × String :=
   match words line with
